@@ -445,7 +445,9 @@ pub fn register_upvalue<T>(
     let c = resolve_closure(closure)?;
 
     if is_local {
-        let location = &vm.runtime_data.value_stack.as_slice()[index as usize];
+        // `index` counts from the beginning of the enclosing function's frame
+        let index = stack_offset(vm) + index as usize;
+        let location = &vm.runtime_data.value_stack.as_slice()[index];
         let location = (location as *const Value).cast_mut();
         unsafe {
             // look for an existing upvalue to the same location
